@@ -3,6 +3,10 @@ pub mod prng;
 pub mod sexp;
 pub mod driver;
 pub mod report;
+pub mod gm;
+pub mod render;
+pub mod gen;
+pub mod real;
 
 pub use prng::Rng;
 pub use sexp::Sexp;
